@@ -10,6 +10,7 @@ CONSTANTS
   PerIns = 2
   PerFl = 1
   LockScope = "fix"
+  SigMode = "none"
 VIEW View
-INVARIANTS TypeOK AllPersistedOnce NoCrash FlushHoldsLock NeverTwice LocInternOK TxnOwner
+INVARIANTS TypeOK AllPersistedOnce NoCrash FlushHoldsLock NeverTwice LocInternOK TxnOwner EmitCase
 PROPERTIES Terminates Refines
